@@ -31,6 +31,10 @@ type Opts struct {
 	UnitPrice   bool   // validator-share and delegator-share prices fixed to 1 (keeps structural queries linear)
 	Unbonding   int64  // staking unbonding time in ns (0 => symbolic 1s..10y)
 	BlockTime   *time.Time
+	ValPriceOne bool // validator-share price 1 (TotalValidatorShares == TotalTokens) while delegator-share prices stay symbolic (halves the degree of value terms)
+	Hints       bool // suggest a simple concrete regime (round share amounts, unit prices, small rewards) to the search for a concrete counterexample
+	TinyTDS     bool // allow a validator's total delegator shares to be below one share (region of a known C05/C20 finding: shares are then priced 1:1)
+	StrictRewards bool // pending distribution rewards are strictly positive and every position has a strictly positive index gap (fewer zero/non-zero forks)
 	BigPool     bool // the rewards pool holds more than any entitlement (keeps pool-shortage forks out of harnesses that are not about solvency)
 	History2    bool // reward histories exist for two reward denoms, in first-seen (non-alphabetical) order: stake, then aaaaa
 	TwoRewards  bool // pending distribution rewards come in two denoms and the validators have no reward history yet
@@ -106,7 +110,16 @@ func Build(ps []Pos, o Opts) *State {
 			NewValidator(e, Vals[v], stakingtypes.Bonded, tok.Add(m), math.LegacyNewDecFromInt(tok.Add(m)))
 			mod := e.Ak.GetModuleAddress(types.ModuleName)
 			e.Stk.SetDelegationRaw(mod, Vals[v], stakingtypes.NewDelegation(mod.String(), Vals[v].String(), math.LegacyNewDecFromInt(m)))
-			pend := nd.IntRange("pend_"+n, "0", Pow30)
+			plo := "0"
+			if o.StrictRewards {
+				plo = "1"
+			}
+			pend := nd.IntRange("pend_"+n, plo, Pow30)
+			if o.Hints {
+				nd.Hint(pend.Equal(math.NewInt(1000)))
+				nd.Hint(m.Equal(math.NewInt(500000)))
+				nd.Hint(tok.Equal(math.NewInt(1000000)))
+			}
 			if !pend.IsZero() {
 				coins := sdk.Coins{sdk.Coin{Denom: env.BondDenom, Amount: pend}}
 				if o.TwoRewards {
@@ -175,6 +188,9 @@ func Build(ps []Pos, o Opts) *State {
 				} else {
 					sh = nd.DecRange("sh_"+p.name(), "0.000000000000000001", maxShares)
 				}
+				if o.Hints && !o.UnitPrice {
+					nd.Hint(sh.Equal(math.LegacyNewDec(int64(100 * (1 + d + 2*v)))))
+				}
 				st.Shares[p.name()] = sh
 				tds = tds.Add(sh)
 			}
@@ -189,9 +205,16 @@ func Build(ps []Pos, o Opts) *State {
 				vs = nd.DecRange("vs_"+vn+an, "0.000000000000000001", maxShares)
 			}
 			tvs = tvs.Add(vs)
+			if o.Hints && !o.UnitPrice {
+				nd.Hint(vs.Equal(tds))
+			}
 			if !o.UnitPrice {
 				// bound (stated): delegator-share price of a validator within 10^-6 .. 10^6 validator shares
 				nd.Assume(nd.And(tds.LTE(vs.MulInt64(1000000)), vs.LTE(tds.MulInt64(1000000))))
+				if !o.TinyTDS {
+					// bound (stated): a validator's delegator shares add up to at least one share
+					nd.Assume(tds.GTE(math.LegacyOneDec()))
+				}
 			}
 			info := types.NewAllianceValidatorInfo()
 			if old, found := e.K.GetAllianceValidatorInfo(e.Ctx, Vals[v]); found {
@@ -232,6 +255,12 @@ func Build(ps []Pos, o Opts) *State {
 				// bound (stated): validator-share price within 10^-6 .. 10^6 tokens
 				td := math.LegacyNewDecFromInt(asset.TotalTokens)
 				nd.Assume(nd.And(tvs.LTE(td.MulInt64(1000000)), td.LTE(tvs.MulInt64(1000000))))
+				if o.Hints {
+					nd.Hint(td.Equal(tvs))
+				}
+				if o.ValPriceOne {
+					nd.Assume(td.Equal(tvs))
+				}
 			}
 		} else {
 			asset.TotalTokens = math.ZeroInt()
@@ -261,7 +290,15 @@ func Build(ps []Pos, o Opts) *State {
 			h := gh
 			if o.Rewards {
 				h.Index = nd.DecRange("didx_"+gh.Denom[:1]+p.name(), "0", Pow12)
-				nd.Assume(h.Index.LTE(gh.Index))
+				if o.Hints {
+					nd.Hint(h.Index.Equal(math.LegacyNewDec(1)))
+					nd.Hint(gh.Index.Equal(math.LegacyNewDec(2)))
+				}
+				if o.StrictRewards {
+					nd.Assume(h.Index.LT(gh.Index))
+				} else {
+					nd.Assume(h.Index.LTE(gh.Index))
+				}
 			}
 			d.RewardHistory = append(d.RewardHistory, h)
 		}
